@@ -3066,7 +3066,12 @@ impl<'a, F: VfsFile> RangeScanIterator<'a, F> {
 
 		// Find the first key >= start_key in the leaf
 		let current_idx = if start_key.is_empty() {
-			0 // Start from beginning for unbounded
+			match start {
+				// An excluded empty start key still excludes the entry stored under the
+				// empty key (the smallest key, hence first in the first leaf)
+				Bound::Excluded(_) => leaf.keys.iter().take_while(|k| k.is_empty()).count(),
+				_ => 0, // Start from beginning for unbounded
+			}
 		} else {
 			match start {
 				Bound::Included(key) => {
